@@ -59,7 +59,10 @@ def gen_case(rng):
         case["op"] = rng.choice(["==", "!=", "<="])
         return case
     if pos == "operand_value_eq":
-        D.add_equal_valued_objects(rng, world, n=(3, 6))
+        # (a tenth: 70-90 records with value equality, so that the compared variable ranges over a LONG domain of objects that are
+        #  equal to, but not the same as, the copies on the other side)
+        case["many_records"] = rng.random() < 0.1
+        D.add_equal_valued_objects(rng, world, n=(66, 80) if case["many_records"] else (3, 6))
         case["c1"] = C.gen_cond(rng, ["E"], rng.randint(0, 1), {"preds": False, "objcmp": False})
         return case
     if pos == "cond":
@@ -207,7 +210,9 @@ def expected(case, world):
 
 def _copies(world):
     if "_copies" not in world:
-        world["_copies"] = [D.PE(a=e.a, b=e.b, s=e.s, t=e.t, d=dict(e.d), flag=e.flag, ix=-1) for e in world["E"]]
+        # (of a long list of records only every sixth is copied: the other side of the comparison stays short)
+        src = world["E"] if len(world["E"]) <= 20 else world["E"][::6]
+        world["_copies"] = [D.PE(a=e.a, b=e.b, s=e.s, t=e.t, d=dict(e.d), flag=e.flag, ix=-1) for e in src]
     return world["_copies"]
 
 
@@ -378,6 +383,8 @@ def check_case(case, ctx):
         ctx.case = case
     exp = expected(case, world)
     ctx.cls("cls:pos:" + case["pos"])
+    if case.get("many_records"):
+        ctx.cls("cls:scale:70_to_90_equal_valued_records")
     if case["pos"] == "cond":
         ctx.cls("cls:conn:" + case["conn"])
         ctx.cls("cls:sub:" + case["k1"])
